@@ -13,6 +13,7 @@ import (
 	"github.com/openconfig/gribigo/server"
 	"sync/atomic"
 
+	aftpb "github.com/openconfig/gribi/v1/proto/gribi_aft"
 	spb "github.com/openconfig/gribi/v1/proto/service"
 
 	"verifharness/canon"
@@ -244,5 +245,79 @@ func TestCheck(t *testing.T) {
 			run.Sample(map[string]any{"case": caseID, "trace": trace})
 		}
 	})
+	expiredContextThenRetry(run)
 	run.Finish("pairs of reference-closed RIBs without held operations over 1-3 NIs (target NIs a superset of intended NIs; independent / equal / intended-plus-overlay pairs; rich and compact payloads); Reconcile, apply Add NH,NHG,top / Replace NH,NHG,top / Delete top,NHG,NH one by one to the live target (reference checks on, each must be acknowledged), then target contents == intended contents, ids = base+1..base+n; 1 in 10 pairs observe the target through a real Get RPC (RemoteRIB). 1 case in 3 chains 2-4 reconciliations on the same live target (new independent intent, or the previous intent plus an overlay). Non-trivial = the two RIBs differ", 50, false)
+}
+
+// expiredContextThenRetry: a reconciliation of two large RIBs whose context has already
+// expired (the caller gave up), followed at once by a retry that shares the id counter, as
+// a caller that keeps one counter per target does. Whatever the first call returns, the
+// retry's ids must count up from the counter's value at the moment of the call, without
+// gaps, and leave the counter at base+n: nothing of the first call may still be using it.
+func expiredContextThenRetry(run *ev.Run) {
+	n := run.Pick(6, 80)
+	ev.Parallel(n, 4, func(i int) {
+		caseID := fmt.Sprintf("expired-context-%d", i)
+		if !run.Want(caseID) {
+			return
+		}
+		r := run.Rand(caseID)
+		nis := []string{server.DefaultNetworkInstanceName, "VRF1"}
+		intended, target := newRIB(nis[0], nis), newRIB(nis[0], nis)
+		size := 400 + r.Intn(1200)
+		for k := 0; k < size; k++ {
+			ni := nis[k%2]
+			op := &spb.AFTOperation{Id: uint64(k + 1), NetworkInstance: ni, Op: spb.AFTOperation_ADD,
+				Entry: &spb.AFTOperation_NextHop{NextHop: &aftpb.Afts_NextHopKey{Index: uint64(k + 1), NextHop: &aftpb.Afts_NextHop{IpAddress: gen.S("192.0.2.1")}}}}
+			if _, _, err := intended.AddEntry(ni, op); err != nil {
+				run.Fatal(caseID + ": " + err.Error())
+				return
+			}
+		}
+		id := &atomic.Uint64{}
+		id.Store(uint64(r.Intn(1000)))
+		var probs []string
+		rec := reconciler.New(reconciler.NewLocalRIB(intended), reconciler.NewLocalRIB(target))
+		ctx, cancel := context.WithCancel(context.Background())
+		cancel()
+		base1 := id.Load()
+		ops1, err1 := rec.Reconcile(ctx, id)
+		check := func(what string, base uint64, ops *reconciler.ReconcileOps) {
+			var ids []uint64
+			for _, list := range [][]*spb.AFTOperation{ops.Add.NH, ops.Add.NHG, ops.Add.TopLevel, ops.Replace.NH, ops.Replace.NHG, ops.Replace.TopLevel, ops.Delete.TopLevel, ops.Delete.NHG, ops.Delete.NH} {
+				for _, op := range list {
+					ids = append(ids, op.GetId())
+				}
+			}
+			sort.Slice(ids, func(a, b int) bool { return ids[a] < ids[b] })
+			if len(ids) != size {
+				probs = append(probs, fmt.Sprintf("not-converged:missing|%s returned %d operations for %d missing next-hops", what, len(ids), size))
+				return
+			}
+			for k, v := range ids {
+				if v != base+uint64(k)+1 {
+					probs = append(probs, fmt.Sprintf("reconcile-ids-not-consecutive|%s: id #%d is %d, base %d (ids must be base+1..base+%d)", what, k+1, v, base, size))
+					return
+				}
+			}
+			if got := id.Load(); got != base+uint64(size) {
+				probs = append(probs, fmt.Sprintf("reconcile-id-counter|%s: counter %d after %d operations from base %d", what, got, size, base))
+			}
+		}
+		if err1 == nil && ops1 != nil {
+			check("the call with the expired context", base1, ops1)
+		}
+		if len(probs) == 0 {
+			base2 := id.Load()
+			ops2, err2 := rec.Reconcile(context.Background(), id)
+			if err2 != nil {
+				probs = append(probs, "reconcile-error|retry after an expired context: "+err2.Error())
+			} else {
+				check("the retry after a call whose context had expired", base2, ops2)
+			}
+		}
+		mon.Report(run, caseID, []string{fmt.Sprintf("%d next-hops to add over 2 instances; first call with an expired context returned err=%v", size, err1)}, probs)
+		run.Eval(1)
+		run.Count("retries_after_an_expired_context", 1)
+	})
 }
